@@ -489,8 +489,21 @@ func matchElem(ctx Context, doc bsonkit.Doc, name, path string, v interface{}) e
 		return ErrNotMatched
 	}
 
+	// field conditions (as opposed to operator expressions) only apply to
+	// elements that are embedded documents or arrays
+	fieldForm := len(query[0].Key) == 0 || query[0].Key[0] != '$'
+
 	// match first item
 	for _, item := range array {
+		// skip scalar elements for field conditions
+		if fieldForm {
+			switch item.(type) {
+			case bson.D, bson.A:
+			default:
+				continue
+			}
+		}
+
 		// prepare virtual doc
 		virtual := bson.D{
 			bson.E{Key: "item", Value: item},
